@@ -42,6 +42,8 @@ def cases(tier):
     for ctrl in ("i",):
         out.append(f"sets/{ctrl}/noclip/o2i2")
         out.append(f"chain/{ctrl}/noclip/o2i2")
+        out.append(f"terminal/{ctrl}/noclip/o2i2")
+        out.append(f"terminal/{ctrl}/clip/o2i2")
     if tier == "thorough":
         for ssm in ("isotropic", "blockdiag"):
             for strat in ("fixedinterval", "fixedpoint"):
@@ -185,7 +187,7 @@ def _case(case_id, tier):
 
 def run_case(case_id, tier="quick", seed=0, replay_dir=None, log=print):
     kind = case_id.split("/", 1)[0]
-    if kind in ("sets", "chain"):
+    if kind in ("sets", "chain", "terminal"):
         from props import C05s
         return C05s.run_case(case_id, tier=tier, seed=seed, replay_dir=replay_dir, log=log)
     return _case(case_id, tier).run(seed=seed, log=log, replay_dir=replay_dir)
@@ -196,7 +198,7 @@ def replay(path):
     with open(path) as f:
         data = json.load(f)
     cid = data["case"].split("/", 1)[1] if data["case"].startswith("C05/") else data["case"]
-    if cid.split("/")[0] in ("sets", "chain"):
+    if cid.split("/")[0] in ("sets", "chain", "terminal"):
         from props import C05s
         return C05s.replay(path)
     return _case(cid, "quick").replay(path)
